@@ -168,7 +168,7 @@ def run_C03(run):
                                       "gen_C03_intsrc.py (60 lines): textual retargeting of the integer specialisation headers in a copy of glm/; a wrong rewrite fails to compile or fails the validation against the real build",
                                       "gen_C03_proofs.py: asks Coq which entries are not identical trees and writes one lemma statement per such entry with a fixed tactic (cannot make a false lemma pass)",
                                       "oracle_C03.cpp + cmp_C03.py (operation table, pure against every instruction-set level) and oracle_C03_round.cpp (all 2^32 binary32 values): violation search and the only check of the rounding bounds"],
-                      "theorems: 160 traced operations (float, double, int, uint) x 10 SIMD configurations, all real inputs of each entry's domain; oracle: operation table on a generated corpus under 12 builds, rounding functions on every binary32 value",
+                      "theorems: 176 traced operations (float, double, int, uint) x 10 SIMD configurations, all real inputs of each entry's domain; oracle: operation table on a generated corpus under 12 builds, rounding functions on every binary32 value",
                       CHECKER)
 
 
@@ -544,12 +544,12 @@ def run_C19(run):
     stats = par([lambda: run.build_trace("tr_C19", "Gen_C19", [])])
     trace_cov(run, stats)
     gens = [os.path.join(run.dir, "Gen_C19.v")] if os.path.exists(os.path.join(run.dir, "Gen_C19.v")) else []
-    run.prove(gens, [], ["C19/P_C19_int.v", "C19/P_C19_real.v"], "C19/Properties_C19.v", timeout=900)
+    run.prove(gens, [], ["C19/P_C19_int.v", "C19/P_C19_real.v", "C19/P_C19_lowp.v"], "C19/Properties_C19.v", timeout=900)
     fails = oracle_sweep(run, "C19", [("all", ["-pthread"])], run.tier, opt="-O1")
     run.fails = run.triage(fails)
     run.assumptions = ["floating conversions: real-number semantics (pow is the real power function, every operation exact) with the binary32 values of the source constants; float rounding is outside the theorems and is exercised by the oracle (tolerance 3e-6 float / 1e-9 double against a double reference)",
                        "HSV: rgbColor switches on int(sector), a conversion of a traced float to a concrete int, which the tracer does not enumerate; rgbColor/hsvColor (range, value = max, mutual inverse on the cube and over the full hue circle incl. sector boundaries) are covered by the oracle only; hsvColor returns a NaN hue for grey colours, which the property leaves undefined",
-                       "the 3- and 4-component sRGB overloads are tied to the one-component theorem by the alpha theorem (syntactic) and the oracle's per-component comparison; the lowp vec3 convertLinearToSRGB approximation (a different formula) is covered by the oracle only (2e-3 from the threshold upwards; below it: recorded finding)",
+                       "the 3- and 4-component sRGB overloads are tied to the one-component theorem by the alpha theorem (syntactic) and the oracle's per-component comparison; the lowp vec3 convertLinearToSRGB approximation (a different formula) is a hand model (P_C19_lowp.v: the refutation of range and monotonicity below the threshold) tied to the compiled function by the oracle (within 2e-6 of the modelled formula on every sampled input); its accuracy from the threshold upwards (2e-3) is checked by the oracle only",
                        "YCoCg-R on 8/16-bit element types (integer promotion) is covered by the oracle: all 2^24 8-bit triples for uint8, int16, int, uint32 (int8 strided in the quick tier) and a 16-bit lattice; the theorems are for unbounded integers and for int32 with wrap-around",
                        "the reverse composite rgb2YCoCgR(YCoCgR2rgb(x)) is proved for unbounded integers only"]
     run.samples.append("oracle: all 2^24 8-bit RGB triples x {uint8, int16, int, uint32} + int8 + 16-bit lattice; sRGB: grid i/60000 and random x in [0,1], the thresholds 0.0031308 and 0.04045 +- 1e-5, successor pairs for monotonicity, gamma random in [1,3] and exactly 2.4; HSV: random and 1/8-lattice colours incl. equal channels, hues at 60k and random over [0,360); saturation s in [0,2]")
